@@ -252,12 +252,19 @@ def jobs(tier):
         add('helpers_2_2', job_helpers, maxlen1=2, maxlen2=2)
         add('helpers_3_1', job_helpers, maxlen1=3, maxlen2=1)
     else:
-        add('product_3x3_k2', job_product, n1=3, n2=3, k=2, timeout=3000)
-        add('product_3x2_k2', job_product, n1=3, n2=2, k=2, timeout=3000)
+        # (3 x 3 states over two symbols ran 17 CPU-minutes without finishing: not registered)
+        add('product_3x3_k1', job_product, n1=3, n2=3, k=1, timeout=1500)
+        # (3 x 2 over two symbols and no_prefix on 4 states over two symbols: the queries for the longest words of the exact bound
+        # hit the 120 s solver limit -> replaced by the next smaller instances)
+        add('product_2x2_k2', job_product, n1=2, n2=2, k=2, timeout=3000)
+        add('product_3x2_k1', job_product, n1=3, n2=2, k=1, timeout=3000)
         for op in unary:
             if op == 'reverse':
                 add('reverse_n3_k2', job_unary, op=op, n=3, k=2, timeout=3000)
                 add('reverse_n4_k1', job_unary, op=op, n=4, k=1, timeout=3000)
+            elif op == 'no_prefix':
+                add('no_prefix_n4_k1', job_unary, op=op, n=4, k=1, timeout=3000)
+                add('no_prefix_n3_k2', job_unary, op=op, n=3, k=2, timeout=3000)
             else:
                 add('%s_n4_k2' % op, job_unary, op=op, n=4, k=2, timeout=3000)
         add('helpers_3_2', job_helpers, maxlen1=3, maxlen2=2, timeout=3000)
